@@ -293,6 +293,8 @@ func exec(t *hashslot.HashSlotTable, o op, st *stats) (string, string, *hashslot
 			s = hashslot.VerifSelectSmallestDeficitSlot(cur, tgt, slotIDs(o.Slots))
 		}
 		return vh.App("OSelect", vh.B(o.Apply), pairsCoq(o.Cur), pairsCoq(o.Tgt), cnlist(o.Slots)), vh.App("RSlot", vh.N(uint64(s))), t
+	case "clone":
+		return "OClone", "RNone", t.Clone()
 	case "buildinit":
 		tb, err := cstate.BuildInitialHashSlotTable(uint32(o.A), o.HS)
 		c := vh.App("OBuildInit", vh.N(uint64(uint32(o.A))), vh.N(uint64(o.HS)))
@@ -489,6 +491,10 @@ func (g *genState) migHS() uint16 {
 }
 
 func (g *genState) query() {
+	if vh.Chance(g.r, 0.08) {
+		g.push(op{K: "clone"})
+		return
+	}
 	switch g.r.IntN(6) {
 	case 0, 1:
 		g.push(op{K: "lookup", HS: g.hs()})
@@ -698,6 +704,13 @@ func gen(r *rand.Rand, tier string, i int) input {
 	default:
 		phys = 1 + r.IntN(6)
 	}
+	kinds := []string{"balanced-plans", "balanced-plans", "nudged-plans", "wide-nudged", "skew-plans", "mixed", "mixed", "migrations", "codec", "malformed", "units"}
+	kind := kinds[r.IntN(len(kinds))]
+	if kind == "wide-nudged" { // many slots, few hash slots each: shares change rank when a slot leaves (the K2 shape)
+		k := 5 + r.IntN(5)
+		phys = k
+		count = uint16(k*(1+r.IntN(3)) + r.IntN(k))
+	}
 	big := count > 300
 	g := &genState{r: r, t: hashslot.NewHashSlotTable(count, phys), alpha: uint64(2 + r.IntN(6))}
 	if phys > 0 && phys < 70 && vh.Chance(r, 0.6) {
@@ -709,8 +722,14 @@ func gen(r *rand.Rand, tier string, i int) input {
 	} else if count > 64 {
 		budget = 2 + r.IntN(8)
 	}
-	kinds := []string{"balanced-plans", "balanced-plans", "nudged-plans", "skew-plans", "mixed", "mixed", "migrations", "codec", "malformed", "units"}
-	kind := kinds[r.IntN(len(kinds))]
+	if kind == "wide-nudged" {
+		g.alpha = uint64(phys)
+		budget = 3 + r.IntN(10)
+	}
+	nudges := 1 + r.IntN(2)
+	if kind == "wide-nudged" {
+		nudges = 2 + r.IntN(phys)
+	}
 	for len(g.ops) < budget {
 		switch kind {
 		case "balanced-plans": // chains of applied plans from the initial (balanced) layout
@@ -719,9 +738,16 @@ func gen(r *rand.Rand, tier string, i int) input {
 			} else {
 				g.plan(vh.Chance(r, 0.9))
 			}
-		case "nudged-plans": // within-one but not exact: one or two reassignments, then plans
-			if len(g.ops) < 1+r.IntN(2) {
-				g.push(op{K: "reassign", HS: g.hs(), A: g.slotNZ()})
+		case "nudged-plans", "wide-nudged": // within-one but not exact: a few reassignments, then plans
+			if len(g.ops) < nudges {
+				g.push(op{K: "reassign", HS: uint16(r.IntN(int(count) + 1)), A: 1 + r.Uint64N(g.alpha)})
+			} else if kind == "wide-nudged" && vh.Chance(r, 0.6) {
+				act := g.active()
+				if len(act) > 0 {
+					g.push(op{K: "remove", A: uint64(act[r.IntN(len(act))]), Apply: true})
+				} else {
+					g.plan(true)
+				}
 			} else {
 				g.plan(vh.Chance(r, 0.85))
 			}
